@@ -7,7 +7,7 @@ See DESIGN.md section 3.1 for the rule table. Every change to extracted text is 
     /*@R<rule> <base64 original>*/ replacement /*@/R*/   (rewrite)
 so that erase() can reconstruct the original token stream, which is compared with /repo's on every run.
 """
-import base64, bisect, hashlib, json, os, re, sys
+import base64, bisect, hashlib, json, os, re, shlex, sys
 from rtok import tokenize, code_tokens, match_close, locate_items, norm, TokErr, OPEN, CLOSE
 
 REPO = os.environ.get('VERIF_REPO', '/repo')
@@ -481,7 +481,7 @@ def unit_contracts(unit_name):
     while i < len(lines):
         m = DIRECTIVE.match(lines[i][0])
         if m and (m.group(1).startswith('extract ') or m.group(1).startswith('extract! ')):
-            words = m.group(1).split()
+            words = shlex.split(m.group(1))
             single = words[0] == 'extract!'
             rest, opts = parse_kv(words[1:])
             if single: blocks, nxt = {'_rewrites': [], '_lines': {}}, i + 1
@@ -513,6 +513,7 @@ def generate(unit_name):
         d = m.group(1).strip()
         words = d.split()
         if not words: i += 1; continue
+        if words[0] in ('extract', 'extract!', 'import'): words = shlex.split(d)
         if words[0] == 'unit': i += 1; continue
         if words[0] == 'property': u.properties = words[1:]; i += 1; continue
         if words[0] == 'min_verified': u.min_verified = int(words[1]); i += 1; continue
